@@ -223,7 +223,7 @@ func runC15(c *Ctx, cases []*C15Case, withRace bool) bool {
 	for i, cs := range cases {
 		for _, v := range variants {
 			runs, _, _ := c15Ops(cs, v)
-			jobs = append(jobs, &gen.Job{ID: fmt.Sprintf("g%d%s", i, map[bool]string{true: "o", false: "p"}[v.Object()] + fmt.Sprint(len(v.Opts))), Spec: cs.Spec, Variants: []gen.Variant{v}, Runs: runs})
+			jobs = append(jobs, &gen.Job{ID: fmt.Sprintf("g%d%s", i, map[bool]string{true: "o", false: "p"}[v.Object()]+fmt.Sprint(len(v.Opts))), Spec: cs.Spec, Variants: []gen.Variant{v}, Runs: runs})
 		}
 		if withRace && i < 3 {
 			// 8 contexts concurrently, race detector on
